@@ -173,7 +173,8 @@ type Engine struct {
 	ps pathState
 
 	pre       []decision
-	preIdx    int
+	preUsed   int
+	decSeq    int
 	stepMark  int
 	stepPS    pathSave
 	done      bool
